@@ -5,6 +5,7 @@ public call, canonical observation lines.  Formatting only; every value printed 
 import CG.Driver.Codec
 import CG.Model.Views
 import CG.Model.OpsImpl
+import CG.Model.ArgForms
 
 namespace CG.Driver.GraphH
 open CG CG.Codec Std
@@ -24,6 +25,11 @@ def encMeta (m : Meta) : String :=
 
 def decOpt? {α : Type} (f : String → Option α) (t : String) : Option (Option α) :=
   if t = "~" then some none else (f t).map some
+
+/-- `variable_type` argument: a member text, `~` = None, `?s` = an unknown string, `?o` = a non-string object -/
+def decVtArg? (t : String) : Option VtArg :=
+  if t = "?s" then some .badStr else if t = "?o" then some .badObj else
+  if t = "~" then some (.ok none) else (VType.ofText? t).map (fun v => .ok (some v))
 
 def decBool? (t : String) : Option Bool := if t = "1" then some true else if t = "0" then some false else none
 
@@ -97,7 +103,7 @@ def replyB : Graph × Option Err → (Graph × String)
 /-- apply one `op` line to a graph; `none` = unparsable line -/
 def applyOp (g : Graph) : List String → Option (Graph × String)
   | ["add_node", i, vt, m] => do
-    pure (replyE (addNode g (← hexDec? i) (← VType.ofText? vt) (← decMeta? m)) g)
+    pure (replyB (addNodeV g (← hexDec? i) (← decVtArg? vt) (← decMeta? m)))
   | ["add_node_obj", i, vt, m] => do
     pure (replyE (addNodeObj g (← hexDec? i) (← VType.ofText? vt) (← decMeta? m)) g)
   | ["ts_add_node", i, v, l, vt, m] => do
@@ -115,8 +121,8 @@ def applyOp (g : Graph) : List String → Option (Graph × String)
     pure (replyB (replaceEdgeImpl g (← hexDec? s) (← hexDec? d) (← hexDec? ns) (← hexDec? nd)
       (← decOpt? EdgeType.ofText? ty) (← decOpt? decMeta? m)))
   | ["replace_node", i, new, l, v, vt, m] => do
-    pure (replyB (replaceNodeImpl g (← hexDec? i) (← decOpt? hexDec? new) (← decOpt? decInt? l) (← decOpt? hexDec? v)
-      (← decOpt? VType.ofText? vt) (← decOpt? decMeta? m)))
+    pure (replyB (replaceNodeV g (← hexDec? i) (← decOpt? hexDec? new) (← decOpt? decInt? l) (← decOpt? hexDec? v)
+      (← decVtArg? vt) (← decOpt? decMeta? m)))
   | ["add_time_edge", sv, st, dv, dt, m, v] => do
     pure (replyB (addTimeEdgeImpl g (← hexDec? sv) (← decInt? st) (← hexDec? dv) (← decInt? dt) (← decMeta? m)
       (← decBool? v)))
